@@ -36,6 +36,9 @@ def profiles(tier):
     P.append(("histories", Profile("hist-structure", spec3, False, hs), {"depth": d}))
     hw = A.record_weights(KN, U3, hrecs[:3], has_clear=False, batch_pairs=[(hrecs[1], hrecs[2])])
     P.append(("histories", Profile("hist-weights", spec3, True, hw), {"depth": d}))
+    # deep churn histories over a tiny alphabet (insert / remove of four records): id reuse and stale tables need 5+ steps
+    P.append(("histories", Profile("hist-churn", spec3, False, A.churn([((1, 2), "a"), ((1, 2, 3), "a"), ((2, 3), "b"), ((1, 2), "b")])), {"depth": 8 if tier == "quick" else 10}))
+    P.append(("histories", Profile("hist-churn-weighted", spec3, True, A.churn([((1, 2), "a"), ((1, 2, 3), "a"), ((2, 3), "b"), ((1, 2), "b")])), {"depth": 6 if tier == "quick" else 8}))
     if tier == "thorough":
         spec3c = MultiplexSpec(U3, 99, c3 + [(3,)], layers=("a", "b", "c"))
         recs3 = hrecs + [((3,), "c"), ((1, 2), "c")]
